@@ -352,7 +352,7 @@ Proof.
 Qed.
 
 (* ------------------------------------------------------------------------------------------------ *)
-(* 7. write_meta (with an encoding in force, [meta_enc_b]: see RoundTripSim.v)                            *)
+(* 7. write_meta: 7a an encoding is in force (text path), 7b none is (bytes path), 7 both                 *)
 
 (* the metadata content round trip for every modelled codec: unconditional for the single-byte-newline codecs,
    under [guess_agrees] for the others *)
